@@ -21,7 +21,7 @@ use crate::types::lk;
 struct V(u32);
 impl ReactComponent for V {}
 
-#[derive(PartialEq, Clone, Copy, Debug)]
+#[derive(PartialEq, Clone, Copy, Debug, Default)]
 struct R(u32);
 impl ReactResource for R {}
 
@@ -66,6 +66,11 @@ pub enum AccOp {
     WorldInsertResource { val: u32 },
     CommandsInsertResource { val: u32 },
     WorldRemoveAndReinsert { val: u32 },
+    /// `init_react_resource` while the resource exists: nothing changes (World / Commands form)
+    WorldInitExisting,
+    CommandsInitExisting,
+    /// `Commands::remove_react_resource` followed by `Commands::init_react_resource` in one system: the default value
+    CommandsRemoveAndInit,
 }
 
 #[derive(Default, Clone, Debug, PartialEq, Eq)]
@@ -93,7 +98,7 @@ struct Outcome {
 fn gen_op(r: &mut Rng) -> AccOp {
     let val = r.below(3) as u32;
     let other = r.chance(25);
-    match r.below(33) {
+    match r.below(36) {
         0 => AccOp::ReactiveGet { other },
         1 => AccOp::ReactiveSingle,
         2 => AccOp::ReactiveMutGet { other },
@@ -126,7 +131,10 @@ fn gen_op(r: &mut Rng) -> AccOp {
         29 => AccOp::RcTriggerResource,
         30 => AccOp::WorldInsertResource { val },
         31 => AccOp::CommandsInsertResource { val },
-        _ => AccOp::WorldRemoveAndReinsert { val },
+        32 => AccOp::WorldRemoveAndReinsert { val },
+        33 => AccOp::WorldInitExisting,
+        34 => AccOp::CommandsInitExisting,
+        _ => AccOp::CommandsRemoveAndInit,
     }
 }
 
@@ -293,6 +301,16 @@ fn perform(w: &mut World, e: &Ents, op: AccOp) -> Outcome {
             w.insert_react_resource(R(val));
             out.ret = Some(old);
         }
+        AccOp::WorldInitExisting => w.init_react_resource::<R>(),
+        AccOp::CommandsInitExisting => {
+            w.syscall_once((), |mut c: Commands| c.init_react_resource::<R>());
+        }
+        AccOp::CommandsRemoveAndInit => {
+            w.syscall_once((), |mut c: Commands| {
+                c.remove_react_resource::<R>();
+                c.init_react_resource::<R>();
+            });
+        }
     }
     out
 }
@@ -404,6 +422,8 @@ fn expected(op: AccOp, v: u32, r: u32, owner: u64) -> (Outcome, Counts, u32, u32
             out.ret = Some(Some(r));
             nr = val;
         }
+        AccOp::WorldInitExisting | AccOp::CommandsInitExisting => {}
+        AccOp::CommandsRemoveAndInit => nr = 0,
     }
     (out, c, nv, nr)
 }
